@@ -74,7 +74,16 @@ func SafeRun(p *Property, env *Env, c any) (out Outcome) {
 			}
 		}
 	}()
-	return p.Run(env, c)
+	out = p.Run(env, c)
+	// a run of the real binary that shadowed an in-process run disagreed with it (see props/cli.go)
+	if d, _ := env.Private["divergence"].(string); d != "" {
+		env.Private["divergence"] = ""
+		if out.Violation == "" && out.Skip == "" {
+			out.Violation = "the real binary and the in-process driver (mainCmd.Run) disagree — what runMain does around Run is part of the tool:\n" + d
+			out.FindingKey = "real-binary-differs-from-driver"
+		}
+	}
+	return out
 }
 
 func firstLineOf(s string) string {
